@@ -201,6 +201,7 @@ func (i *interpreter) resetPath() {
 	i.protoSeq = 0
 	i.manualTimers = false
 	i.jsonStreams = nil
+	i.jsonCodecs = nil
 	i.pendingTimers = nil
 	i.protoMsgs = map[string]iface{}
 	i.depth = 0
